@@ -955,6 +955,8 @@ func (k *kase) runIter(ctx context.Context, it iterSpec) bool {
 				rOK = ri.Prev(cesium.AutoSpan)
 			case "valid":
 				rOK = ri.Valid()
+			case "set-bounds":
+				ri.SetBounds(telem.TimeRange{Start: telem.TimeStamp(cmd.Arg), End: telem.TimeStamp(cmd.Arg2)})
 			}
 		}()
 		select {
@@ -985,6 +987,10 @@ func (k *kase) runIter(ctx context.Context, it iterSpec) bool {
 				dOK, hasData = di.Prev(iterator.AutoSpan), true
 			case "valid":
 				dOK = di.Valid()
+			case "set-bounds":
+				_ = di.SetBounds(telem.TimeRange{Start: telem.TimeStamp(cmd.Arg), End: telem.TimeStamp(cmd.Arg2)})
+				k.h.Count("iterator_set_bounds_commands", 1)
+				dOK = rOK
 			}
 		}) {
 			return false
